@@ -755,8 +755,8 @@ fn c06_profiles() -> Vec<(&'static str, Profile, u32, u32)> {
     p.o_exec = 5;
     p.post_pct = 35;
     p.max_ops = 50;
-    p.k_probe = 1;
-    p.probe_lifecycle_pct = 30;
+    p.k_probe = 3;
+    p.probe_lifecycle_pct = 50;
     // adapters take slots of the source list as well (slot reuse by an adapter, adapters owned by callback closures)
     p.o_async = 4;
     vec![("hist", p, 48000, 1000000)]
